@@ -467,8 +467,7 @@ def _print_parse(facts, res, disp_path, regex_bodies, label):
         for bi, dec, fields in tpls:
             if len([d for d in dec if d[0] == "ph"]) == 3:
                 for l in lits_of(db, bi, facts):
-                    if l.kind == "cmp" and l.term[1] == "Gt" and l.truth is True and l.term[3][0] == "const" and l.term[3][2] == 1 and \
-                            any(y[0] == "field" and y[2] == "index" for y in walk(l.term[2])):
+                    if l.kind == "cmp" and l.truth is not None and _means_index_gt_1(l):
                         ok = True
         res.instance("P3", "Revision: the three-field form is printed iff index > 1: %s" % ok, db.loc())
         if not ok:
@@ -476,6 +475,22 @@ def _print_parse(facts, res, disp_path, regex_bodies, label):
 
 
 FIXTURE_EXPECT = ['nondeterminism:std::time', 'pointer-to-int']
+
+
+def _means_index_gt_1(l):
+    """the literal states `index > 1` in any of its equivalent spellings (index > 1, !(index <= 1), index >= 2, 1 < index ...)"""
+    op, a, b = l.term[1], l.term[2], l.term[3]
+    flip = {"Gt": "Lt", "Lt": "Gt", "Ge": "Le", "Le": "Ge", "Eq": "Eq", "Ne": "Ne"}
+    neg = {"Gt": "Le", "Le": "Gt", "Lt": "Ge", "Ge": "Lt", "Eq": "Ne", "Ne": "Eq"}
+    if op not in flip:
+        return False
+    if a[0] == "const":
+        a, b, op = b, a, flip[op]
+    if b[0] != "const" or not any(y[0] == "field" and y[2] == "index" for y in walk(a)):
+        return False
+    if l.truth is False:
+        op = neg[op]
+    return (op, b[2]) in (("Gt", 1), ("Ge", 2))
 
 
 def thorough(res):
